@@ -51,13 +51,9 @@ def register(reg: Registry) -> None:
         modifies=["list(self._collected_ops)", "list(self._labels_before_op)", "dict(self._collected_labels)", "self._label_increment_id", "alloc"],
         canaries=["len(self._labels_before_op) == old(len(self._labels_before_op))"], properties=["C07", "C03"])
     NEWOP = "self._collected_ops[len(self._collected_ops) - 1]"
-    import os
-
-    if not os.environ.get("PYVC_EXPERIMENTAL"):
-        return  # exitOperation: draft, 145/146 obligations discharged; not part of the checks yet
     reg.contract(
         L + ":SsbScriptCompilerListener.exitOperation", types={"self": "SsbScriptCompilerListener", "ctx": "OperationContext"},
-        requires=SEP + ["dict_wf(self.label_offsets)"],
+        requires=SEP + ["dict_wf(self.label_offsets)", "self.label_offsets is not self.source_map_builder._mappings"],
         raises=[("SsbCompilerError", "True", False)],  # operations with an inline context are rejected (what ctx.inline_ctx() returns is opaque)
         ensures=[
             "self._total_number_collected_ops == old(self._total_number_collected_ops) + 1",
